@@ -77,6 +77,16 @@ def pack_standard(evs):
             ids[h] = len(ids) + 1
         return ids[h]
 
+    def known_id(h, logl, fresh):
+        """id of a point that should already be known; a point never seen in a live set (e.g. a recorded
+        discarded point that was overwritten) gets a new id with its own rank, so that every id has a rank and
+        the clauses fail on the values instead of TLC failing on an unknown id"""
+        if h in ids:
+            return ids[h]
+        i = pid(h)
+        fresh.append([i, rk(logl)])
+        return i
+
     out = []
     ev_base = {}
     st_base = {}      # proc -> sampling time restored at the start of that process
@@ -158,8 +168,8 @@ def pack_standard(evs):
             draws = e.get("draws", [])
             base.update(
                 live=lst, fresh=fresh, live_ranks=ranks,
-                worst=ids.get(w["id"], 0), worst_rank=rk(w["logL"]),
-                new=ids.get(n["id"], 0), new_rank=rk(n["logL"]),
+                worst=known_id(w["id"], w["logL"], fresh), worst_rank=rk(w["logL"]),
+                new=known_id(n["id"], n["logL"], fresh), new_rank=rk(n["logL"]),
                 new_ok=bool(n["prior_finite"] and n["in_bounds"]),
                 new_vals_ok=bool(n["logP_ok"] and n["logL_ok"]),
                 new_it=int(n["it"]), worst_it=int(w["it"]), it_sum=int(e["live"]["it_sum"]),
